@@ -19,7 +19,8 @@ def rt_cases(draw, tier):
     nl = draw(gen.netlists(min_inputs=0, max_inputs=6 if big else 5, max_gates=30 if big else 16, max_arity=5,
                            styles=('plain', 'digits', 'mixed', 'keyword', 'keyword'), max_outputs=4,
                            const_operands=(0, 0, 2, 1, 3)))
-    return {'nl': nl, 'route': draw(gen.routes(nl, allow_bench=False)), 'via_file': draw(st.integers(0, 3)) == 0}
+    return {'nl': nl, 'route': draw(gen.routes(nl, allow_bench=False)), 'via_file': draw(st.integers(0, 3)) == 0,
+            'same_path': draw(st.booleans())}
 
 
 def _kw_classes(nl):
@@ -36,13 +37,27 @@ def _kw_classes(nl):
     return cls
 
 
+_FIXED = {}
+
+
+def _fixed_dir():
+    if 'd' not in _FIXED:
+        import atexit
+
+        _FIXED['d'] = tempfile.mkdtemp(prefix='c11_same_', dir=os.path.join(VERIF_DIR, '.scratch'))
+        atexit.register(shutil.rmtree, _FIXED['d'], ignore_errors=True)
+    return _FIXED['d']
+
+
 def check_roundtrip(case):
     core = cirbo_core()
     nl = case['nl']
     c = build.build(nl, case['route'])
     text = c.format_circuit()
     if case['via_file']:
-        d = tempfile.mkdtemp(prefix='c11_', dir=os.path.join(VERIF_DIR, '.scratch'))
+        # either a fresh directory, or ONE file name per process that every such case overwrites (a user saving
+        # successive versions of a circuit under the same name and loading them back)
+        d = _fixed_dir() if case.get('same_path') else tempfile.mkdtemp(prefix='c11_', dir=os.path.join(VERIF_DIR, '.scratch'))
         try:
             path = os.path.join(d, 'sub', 'c.bench')
             c.save_to_file(path)
@@ -51,7 +66,8 @@ def check_roundtrip(case):
                     raise Violation('save_to_file', 'file content differs from format_circuit()')
             parsed = core.Circuit.from_bench_file(path)
         finally:
-            shutil.rmtree(d, ignore_errors=True)
+            if not case.get('same_path'):
+                shutil.rmtree(d, ignore_errors=True)
     else:
         parsed = core.Circuit.from_bench_string(text)
     if not (parsed == c):
@@ -68,7 +84,7 @@ def check_roundtrip(case):
     cls = gen.classify(nl) | _kw_classes(nl)
     cls.add('route:' + case['route']['kind'])
     if case['via_file']:
-        cls.add('via_file')
+        cls.add('via_file_same_path' if case.get('same_path') else 'via_file')
     nt = any(k.startswith('kw_') for k in cls) or case['route']['kind'] == 'rename'
     return {'nt': nt and gen.nontrivial_basic(nl), 'cls': cls, 'sample': {'text': text}}
 
@@ -175,7 +191,7 @@ SPEC = {
     'id': 'C11',
     'rule': ('(a) Hypothesis circuits over all types/arities with identifier labels ([A-Za-z0-9_@], incl. labels that '
              'begin with input/output/vdd/buff/not/and in any case, on inputs, gates and outputs), built by storage-order '
-             'varying routes: parse(format_circuit(c)) == c and from_bench_file(save_to_file(c)) == c incl. input/output '
+             'varying routes: parse(format_circuit(c)) == c and from_bench_file(save_to_file(c)) == c (fresh file names, and one name per process overwritten again and again) incl. input/output '
              'order. (b) netlist + generated layout (permuted declaration lines = use before definition, any letter case '
              'of INPUT/OUTPUT/operator names, BUFF/IFF, vdd alias, spaces around = , ( ), comment and blank lines, with or '
              'without final newline): parsed gate map, input order, output order and truth table equal the netlist the '
@@ -184,6 +200,6 @@ SPEC = {
     'subs': [Sub('roundtrip', rt_cases, check_roundtrip, {'quick': 2500, 'thorough': 200000}),
              Sub('layout', layout_cases, check_layout, {'quick': 2500, 'thorough': 200000})],
     'required_classes': {'roundtrip': ['kw_input_on_gate', 'kw_output_on_gate', 'kw_input_on_input', 'kw_on_output',
-                                       'route:rename', 'via_file', 'nary>=3', 'constant'],
+                                       'route:rename', 'via_file', 'via_file_same_path', 'nary>=3', 'constant'],
                          'layout': ['use_before_definition', 'alias_buff', 'alias_vdd', 'comment', 'kw_input_on_gate']},
 }
